@@ -7,7 +7,6 @@ use unicode_width::UnicodeWidthStr;
 use crate::ansi::measure_text_width;
 use crate::color;
 use crate::config;
-use crate::config::delta_unreachable;
 use crate::delta::{self, State, StateMachine};
 use crate::fatal;
 use crate::format::{self, FormatStringSimple, Placeholder};
@@ -168,10 +167,10 @@ impl StateMachine<'_> {
                     self.get_next_color(Some(key_color))
                 }
             }
-            (None, _, true) => delta_unreachable("is_repeat cannot be true when key has no color."),
-            (Some(_), None, _) => {
-                delta_unreachable("There must be a previous key if the key has a color.")
-            }
+            // The previous line kept the color git gave it (e.g. `blame.coloring`), so its key
+            // was not assigned a color: treat this line like the first one with its key.
+            (None, _, true) => self.get_next_color(None),
+            (Some(key_color), None, _) => key_color.to_owned(),
         }
     }
 
